@@ -372,6 +372,13 @@ def run(ctx):
         add(fam + ":" + lab, m, None, seq=[rng.choice(["extractall", "testzip"]), "extractall"])
     for fam, lab, m in aes_property_sweep():
         add(fam + ":" + lab, m, "pw", seq=["getnames", rng.choice(["extractall", "testzip"])])
+    # encoded headers that decode to an encoded header again: one that is its own packed stream (Copy coder, no CRC,
+    # PackPos pointing back at the record), two that point at each other, and finite nesting three levels deep
+    def rec(packpos, size):
+        return bytes([0x17, 0x06, packpos, 0x01, 0x09, size, 0x00, 0x07, 0x0B, 0x01, 0x00, 0x01, 0x01, 0x00, 0x0C, size, 0x00, 0x00])
+    add("synthetic:encoded-header-1cycle", seal(b"", rec(0, 18)), None, seq=["getnames"])
+    add("synthetic:encoded-header-2cycle", seal(rec(18, 18), rec(0, 18)), None, seq=["getnames"])
+    add("synthetic:encoded-header-nested3", seal(rec(18, 18) + rec(36, 18) + b"\x01\x00" + bytes(16), rec(0, 18)), None, seq=["getnames"])
     # degenerate inputs
     for blob in (b"", b"7z", b"7z\xbc\xaf\x27\x1c", b"7z\xbc\xaf\x27\x1c\x00\x04" + bytes(24), seal(b"", b""), seal(b"", b"\x01"), seal(b"", b"\x17"),
                  seal(b"", b"\x01\x00"), seal(b"", b"\x01\x05"), seal(b"", b"\x01\x04\x06")):
